@@ -527,7 +527,11 @@ class BaseTable:
             index = util.safe_np_int_cast(index, np.int32)
 
         ret = self.__class__()
-        ret.metadata_schema = self.metadata_schema
+        # Not all tables have metadata schemas
+        try:
+            ret.metadata_schema = self.metadata_schema
+        except AttributeError:
+            pass
         ret.ll_table.extend(self.ll_table, row_indexes=index)
 
         return ret
